@@ -116,7 +116,21 @@ func doCmpShapes(rng *vhlib.Rng, thorough bool, w *vhlib.Writer) {
 		if p {
 			obs = "OPanic"
 		}
-		add(len(s1)+1, e.name+".CompareFunc["+sh.name+"]/"+what, fmt.Sprintf("KCompareFuncSel %s %s", sh.name, vhlib.ZList(s2)), s1, obs, true, nil)
+		// the definition side by a plain loop (for the replay file; the judgement is Coq's)
+		exp, expCalls := 0, [][2]int64{}
+		decided := false
+		for i := 0; i < len(s1) && i < len(s2) && !decided; i++ {
+			expCalls = append(expCalls, [2]int64{s1[i], s2[i]})
+			if c := sh.f(s1[i], s2[i]); c != 0 {
+				exp, decided = c, true
+			}
+		}
+		if !decided {
+			exp = sgn(int64(len(s1) - len(s2)))
+		}
+		add(len(s1)+1, e.name+".CompareFunc["+sh.name+"]/"+what, fmt.Sprintf("KCompareFuncSel %s %s", sh.name, vhlib.ZList(s2)), s1, obs, true,
+			map[string]interface{}{"entry_point": e.name + ".CompareFunc", "first_operand_or_receiver": s1, "second_operand_or_argument": s2, "cmp": sh.name,
+				"recorded_calls_first_second": calls, "result": r, "expected_result": exp, "expected_calls": expCalls})
 	}
 	for r := 0; r < rounds; r++ {
 		for _, sh := range cmpShapes {
@@ -159,7 +173,14 @@ func doCmpShapes(rng *vhlib.Rng, thorough bool, w *vhlib.Writer) {
 		if p {
 			obs = "OPanic"
 		}
-		add(len(s1)+1, e.name+".EqualFunc["+ps.name+"]/"+what, fmt.Sprintf("KEqualFuncSel %s %s", ps.name, vhlib.ZList(s2)), s1, obs, true, nil)
+		exp, expCalls := len(s1) == len(s2), [][2]int64{}
+		for i := 0; exp && i < len(s1); i++ {
+			expCalls = append(expCalls, [2]int64{s1[i], s2[i]})
+			exp = ps.f(s1[i], s2[i])
+		}
+		add(len(s1)+1, e.name+".EqualFunc["+ps.name+"]/"+what, fmt.Sprintf("KEqualFuncSel %s %s", ps.name, vhlib.ZList(s2)), s1, obs, true,
+			map[string]interface{}{"entry_point": e.name + ".EqualFunc", "first_operand_or_receiver": s1, "second_operand_or_argument": s2, "predicate": ps.name,
+				"recorded_calls_first_second": calls, "result": r, "expected_result": exp, "expected_calls": expCalls})
 	}
 	for r := 0; r < rounds; r++ {
 		for _, ps := range predShapes {
@@ -192,7 +213,7 @@ func doCmpShapes(rng *vhlib.Rng, thorough bool, w *vhlib.Writer) {
 				}
 				emitEqual(e, ps, s1, s2, "holds")
 				if k%2 == 0 { // the other orientation (fails for the asymmetric predicates)
-					emitEqual(e, ps, s2, s1, "swapped")
+					emitEqual(e, ps, s2, s1, "operands exchanged")
 				}
 				switch k % 3 {
 				case 0: // one pair spoiled: stops there
